@@ -40,7 +40,7 @@ func main() {
 			return
 		}
 	}
-	n := 130
+	n := 100
 	if a.Thorough() {
 		n = 1500
 	}
